@@ -31,7 +31,7 @@ def tspCheck (toks : List String) : Option String := do
   let n := n.toNat
   let i : Rl4co.Tsp.Inst := { n := n, D := fun _ _ => 0 }
   let as := toNats acts
-  pure s!"check={bit (Rl4co.Tsp.check i as)} feas={bit (Rl4co.Spec.Tsp.feasible n as)}"
+  pure s!"check={bit (Rl4co.Tsp.check i as)} feas={bit (Rl4co.Spec.Tsp.feasible n as)} fix={bit (Rl4co.Tsp.checkWith true i as)}"
 
 /-- state of every row after a batched run through `batchStep` (the code's batch-global first-step
 test included): `tspfam.tsp.batch n | acts row 0 | acts row 1 | …` (rows of equal length) -/
@@ -67,7 +67,7 @@ def atspCheck (toks : List String) : Option String := do
   let n := n.toNat
   let i : Rl4co.Atsp.Inst := { n := n, M := fun _ _ => 0 }
   let as := toNats acts
-  pure s!"check={bit (Rl4co.Atsp.check i as)} feas={bit (Rl4co.Spec.Atsp.feasible n as)}"
+  pure s!"check={bit (Rl4co.Atsp.check i as)} feas={bit (Rl4co.Spec.Atsp.feasible n as)} fix={bit (Rl4co.Atsp.checkWith true i as)}"
 
 def atspBatch (toks : List String) : Option String := do
   let (hd :: rows) ← parseSections toks | none
@@ -104,7 +104,7 @@ def pdpCheck (toks : List String) : Option String := do
   let [hd, dm, acts] ← parseSections toks | none
   let i ← pdpInst hd dm
   let as := toNats acts
-  pure s!"check={bit (Rl4co.Pdp.check i as)} feas={bit (pdpFeas i as)} feasT={bit (pdpFeasTour i as)}"
+  pure s!"check={bit (Rl4co.Pdp.check i as)} feas={bit (pdpFeas i as)} feasT={bit (pdpFeasTour i as)} fix={bit (Rl4co.Pdp.checkWith true i as)}"
 
 /-- `tspfam.pdp.starts h force B k`: the model of `get_num_starts` / `select_start_nodes` and, per selected
 row, whether the reset mask admits that start -/
